@@ -12,6 +12,10 @@ Guard(e) ==
                         /\ e.panicked = EntryPanics(e.entry)
                         /\ e.hookruns = (IF w THEN 1 ELSE 0)              \* hooks run only for enabled events
                         /\ (e.panicked /\ w => e.pmsg = "m") /\ (e.panicked /\ ~w => e.pmsg = "")
+                        \* with a sampler attached: consulted only when both level tests pass; the event is written iff it admits
+                        /\ (~w => e.scallsadmit = 0 /\ e.scallsreject = 0)          \* a level-filtered event is inert: no sampler call
+                        /\ (w => e.scallsadmit >= 1 /\ e.scallsreject >= 1)
+                        /\ e.writtenadmit = (IF w THEN 1 ELSE 0) /\ e.writtenreject = 0
     [] e.a = "Text" -> /\ e.str = LevelText(e.lvl) /\ e.mt = LevelText(e.lvl)
                        /\ ~e.perr /\ e.parsed = e.lvl /\ e.um = e.lvl
     [] e.a = "Nil" -> e.calls = 0 /\ e.panic = "" /\ e.neutral
